@@ -88,7 +88,9 @@ def gen_params(name, r, dim):
     if name in ("GenzDiscontinious", "GenzDiscontinious2"):
         return {"c": [anyc() for _ in range(dim)], "b": [dy(r, -1, 2) for _ in range(dim)]}
     if name in ("GenzGaussian", "FunctionGeneralizedNormal"):
-        return {"m": [dy(r, -1, 2) for _ in range(dim)], "c": [pos() for _ in range(dim)]}
+        return {"m": [dy(r, -1, 2) for _ in range(dim)], "c": [pos() for _ in range(dim)], "exp": r.choice([1, 1, 3])}
+    if name == "FunctionCantileverBeamD":
+        return {"w": r.choice([20.0, 16.0, 24.5]), "t": r.choice([2.0, 1.5, 4.0])}
     if name in ("FunctionG", "FunctionGShifted"):
         return {"dim": dim}
     if name == "FunctionShift":
@@ -150,12 +152,14 @@ def build(name, p):
     if name == "FunctionExpVar":
         return F.FunctionExpVar()
     if name == "FunctionGeneralizedNormal":
-        return F.FunctionGeneralizedNormal(p["m"], p["c"], 1)
+        return F.FunctionGeneralizedNormal(p["m"], p["c"], p.get("exp", 1))
     if name == "FunctionG":
         return F.FunctionG(p["dim"])
     if name == "FunctionGShifted":
         return F.FunctionGShifted(p["dim"])
-    if name in ("FunctionUQ", "FunctionUQShifted", "FunctionUQ2", "FunctionDiagonalDiscont", "FunctionCantileverBeamD"):
+    if name == "FunctionCantileverBeamD":
+        return F.FunctionCantileverBeamD(width=p["w"], thickness=p["t"]) if "w" in p else F.FunctionCantileverBeamD()
+    if name in ("FunctionUQ", "FunctionUQShifted", "FunctionUQ2", "FunctionDiagonalDiscont"):
         return getattr(F, name)()
     if name == "FunctionShift":
         d = list(p["d"])
@@ -198,6 +202,52 @@ def build(name, p):
         c = p["c"]
         return F.LambdaFunction(lambda x: sum(c[i] * x[i] for i in range(len(c))), lambda x: 0.0)
     raise KeyError(name)
+
+
+def independent_value(name, p, x):
+    """the mathematical definition of the classes that have no Lean model, written independently of Function.py (catalogue d:
+    every constructor option must reach eval); None = no independent definition here"""
+    n = len(x)
+    if name == "FunctionCantileverBeamD":
+        w, t = p.get("w", 20.0), p.get("t", 2.0)
+        E, Y, X = x
+        return [4.0 * 100.0 ** 3 / (E * w * t) * math.sqrt((Y / t ** 2) ** 2 + (X / w ** 2) ** 2), 1.0]
+    if name in ("FunctionG", "FunctionGShifted"):
+        y = list(x)
+        if name == "FunctionGShifted":
+            y = [v + 0.2 for v in y]
+            y = [v if v <= 1.0 else v - 1.0 for v in y]
+        out = 1.0
+        for d in range(n):
+            out *= (abs(4.0 * y[d] - 2.0) + 0.5 * d) / (1.0 + 0.5 * d)
+        return [out]
+    if name in ("FunctionUQ", "FunctionUQShifted"):
+        y1 = x[1] + (0.221413 if name == "FunctionUQShifted" else 0.0)
+        sg = (y1 > 0) - (y1 < 0)
+        return [math.exp(-x[0] ** 2 + 2 * sg) + x[2]]
+    if name == "FunctionUQ2":
+        sg = (x[1] > 0) - (x[1] < 0)
+        return [math.exp(-x[0] ** 2 + 2 * sg)]
+    if name == "FunctionDiagonalDiscont":
+        return [1.0 if sum(x) < 1 else 0.0]
+    if name in ("GenzGaussian", "FunctionGeneralizedNormal"):
+        sm = -sum(p["c"][d] * (x[d] - p["m"][d]) ** 2 for d in range(n))
+        try:
+            return [math.exp(sm if name == "GenzGaussian" else sm ** p.get("exp", 1))]
+        except OverflowError:
+            return None
+    if name == "FunctionShift":
+        u = 1.0 + sum(p["c"][d] * (x[d] + p["d"][d]) for d in range(n))
+        return [u ** (-n - 1)]
+    if name == "FunctionCompose":
+        lin = 1.0
+        for d in range(n):
+            lin *= p["c1"][d] * x[d]
+        pp = 10.0 ** (-n)
+        for d in range(n):
+            pp /= p["c2"][d] ** (-2) + (x[d] - p["m"][d]) ** 2
+        return [lin * p["f"][0] + pp * p["f"][1]]
+    return None
 
 
 def model_fn_line(name, p, outlen):
@@ -298,6 +348,13 @@ def call_quiet(f, arg):
 
 
 # --------------------------------------------------------------------------------------------- histories
+# classes whose domain is all of R^d (or the whole non-negative orthant): points far from the origin are legitimate
+# (not GenzOszillatory: cos of an argument of size 1e4 is conditioned worse than the 1e-12 agreement asked of the two paths)
+FAR_OK = ("ConstantValue", "FunctionLinear", "FunctionPolynomial", "FunctionMultilinear", "Polynomial1d", "GenzCornerPeak",
+          "GenzProductPeak", "GenzC0", "GenzGaussian", "FunctionExpVar", "FunctionCompose", "FunctionPower",
+          "FunctionPolysPCE", "FunctionCustom", "FunctionConcatenate", "CustomFunction", "FunctionUQWeighted", "LambdaFunction")
+
+
 def gen_history(r, name, thorough):
     spec = CLASSES[name]
     dim = r.choice(spec["dims"])
@@ -310,8 +367,22 @@ def gen_history(r, name, thorough):
     if name in ("GenzDiscontinious", "GenzDiscontinious2") and r.random() < 0.5:
         pool.append(list(params["b"]))                      # exactly on the border
         q = list(params["b"]); q[0] = max(lo, q[0] - 0.125); pool.append(q)
+    # scale extremes (catalogue e): points that differ by 2^-40 in one coordinate are DIFFERENT points (cache keys must not
+    # be rounded), and points far from the origin (|x| up to 2^13) for the classes whose domain is unbounded
+    if r.random() < 0.35:
+        q = list(r.choice(pool)); d = r.randrange(dim); q[d] = q[d] + 2.0 ** -40
+        if q[d] <= hi or name in FAR_OK:
+            pool.append(q)
+    if name in FAR_OK and r.random() < 0.3:
+        k = r.choice([6, 10, 13])
+        q = [abs(x) * 2.0 ** k + (2.0 ** k if lo >= 0 else 0.0) for x in r.choice(pool)] if lo >= 0 else \
+            [x * 2.0 ** k for x in r.choice(pool)]
+        pool.append(q)
+        q2 = list(q); q2[r.randrange(dim)] += 2.0 ** (k - 40); pool.append(q2)
     nops = r.randint(1, 60)
     ops = []
+    if CLASSES[name]["ov"] and name != "FunctionLinear" and r.random() < 0.08:
+        ops.append(["debug"])                               # public attribute `debug`: check_vectorization is active
     deact_at = r.randrange(nops) if r.random() < 0.5 else None     # half of the histories never deactivate caching
     for i in range(nops):
         if i == deact_at:
@@ -319,12 +390,22 @@ def gen_history(r, name, thorough):
             continue
         x = r.random()
         if x < 0.40:
-            ops.append(["single", r.choice(pool), r.choice(["tuple", "tuple", "list", "array"])])
-        elif x < 0.70:
+            ops.append(["single", r.choice(pool), r.choice(["tuple", "tuple", "list", "array", "rarray"])])
+            if ops[-1][2] == "rarray" and r.random() < 0.6:
+                ops.append(["single", r.choice(pool), "rarray"])    # the caller overwrote its buffer and calls again
+        elif x < 0.68:
             k = r.choice([1, 1, 2, 3, 4, 5])
-            ops.append(["batch", [r.choice(pool) for _ in range(k)], r.choice(["tuples", "tuples", "lists", "array"])])
-        elif x < 0.80:
+            if r.random() < 0.02:
+                k = r.choice([64, 100, 129, 200])           # a large batch (catalogue f)
+            ops.append(["batch", [r.choice(pool) for _ in range(k)], r.choice(["tuples", "tuples", "lists", "array", "rarray"])])
+            if ops[-1][2] == "rarray" and r.random() < 0.6:
+                ops.append(["batch", [r.choice(pool) for _ in range(k)], "rarray"])
+        elif x < 0.70:
+            ops.append(["refeed"])                          # the object's own key list fed back as a batch (catalogue i)
+        elif x < 0.77:
             ops.append(["size"])
+        elif x < 0.80:
+            ops.append(["values"])                          # get_f_dict_values() / use site Integration.get_distinct_points
         elif x < 0.88:
             ops.append(["reset"])
         elif x < 0.93:
@@ -355,13 +436,42 @@ def run_history(ctx, drv, case):
     single_off_since_reset = False
     counter_reported = False
     vmax = [0.0]                          # largest |pure value| seen so far: absolute floor 1e-14 * vmax for comparisons
+    bufs = {}                             # numpy buffers the caller REUSES and overwrites between calls (catalogue c)
+    debug_on = False
+    integ = [None]
+
+    def make_arg(data, how, shape):
+        if how in ("array", "rarray"):
+            if how == "rarray":
+                buf = bufs.setdefault(shape, np.zeros(shape))
+                buf[...] = np.array(data, dtype=float).reshape(shape)
+                return buf
+            return np.array(data, dtype=float).reshape(shape)
+        return None
+
+    def arg_unchanged(arg, before, opname):
+        """the implementation must not modify the caller's coordinates"""
+        try:
+            same = np.array_equal(np.asarray(arg, dtype=float), before)
+        except Exception:
+            same = False
+        if not same:
+            viol("argument-modified", {"op": opname}, {"before": before.tolist(), "after": str(arg)[:200]})
 
     def near(x, y):
         return rel_close(x, y, 1e-12, 1e-2 * vmax[0])
 
+    indep_seen = set()
+
     def pure(q):
         v = pure_value(g, q)
         vmax[0] = max([vmax[0]] + [abs(x) for x in v if math.isfinite(x)])
+        if tuple(q) not in indep_seen and len(q) > 0:
+            indep_seen.add(tuple(q))
+            iv = independent_value(name, params, [float(t) for t in q])
+            if iv is not None and all(math.isfinite(t) for t in iv + v) and (
+                    len(iv) != len(v) or not all(rel_close(a_, b_, 1e-12, 1e-300) for a_, b_ in zip(v, iv))):
+                viol("eval-vs-definition", {}, {"point": list(q), "eval": v, "definition": iv})
         return v
     # is the class consistent with its own declaration?  (eval returns output_length() components)
     declared_ok = name != "CustomFunctionWrongLength"
@@ -416,12 +526,15 @@ def run_history(ctx, drv, case):
             p = [float(x) for x in op[1]]
             if not define(p):
                 done.pop(); continue
-            arg = tuple(p) if op[2] == "tuple" else (list(p) if op[2] == "list" else np.array(p))
+            arg = tuple(p) if op[2] == "tuple" else (list(p) if op[2] == "list" else make_arg(p, op[2], (len(p),)))
+            before = np.array(p, dtype=float)
             try:
                 res = call_quiet(f, arg)
                 impl = "val"
             except Exception as e:
                 res, impl = None, classify(e)
+            if len(p) > 0:
+                arg_unchanged(arg, before, "single")
             mo = drv.ask("single " + pt_str(p))
             de = cnt.n_eval - e0
             if impl == "val" and len(p) == 0:
@@ -462,21 +575,37 @@ def run_history(ctx, drv, case):
                         viol("raises", {"op": "single", "error": impl}, {"point": p})
                     if impl == "err assert" and cache_on:
                         evaluated.add(tuple(p))      # evaluated (and stored) before the assertion fired
-        elif kind == "batch":
+        elif kind in ("batch", "refeed"):
+            own = None
+            if kind == "refeed":
+                try:
+                    own = f.get_f_dict_points()
+                    own_list = [[float(x) for x in k] for k in own]
+                except Exception as e:
+                    viol("raises", {"op": "get_f_dict_points", "error": type(e).__name__}, {"error": str(e)[:200]})
+                    break
+                if not own_list:
+                    done.pop(); continue
+                op = ["batch", own_list, "own-keys"]
             ps = [[float(x) for x in q] for q in op[1]]
             if not all(define(q) for q in ps):
                 done.pop(); continue
-            if op[2] == "tuples":
+            if op[2] == "own-keys":
+                arg = own                                    # exactly what the object handed out
+            elif op[2] == "tuples":
                 arg = [tuple(q) for q in ps]
             elif op[2] == "lists":
                 arg = [list(q) for q in ps]
             else:
-                arg = np.array(ps, dtype=float).reshape((len(ps), dim))
+                arg = make_arg(ps, op[2], (len(ps), dim))
+            before = np.array(ps, dtype=float).reshape((len(ps), dim))
             try:
                 res = call_quiet(f, arg)
                 impl = "vals"
             except Exception as e:
                 res, impl = None, classify(e)
+            if ps:
+                arg_unchanged(arg, before, "batch")
             mo = drv.ask("batch " + (";".join(pt_str(q) for q in ps) if ps else "[]"))
             if impl == "vals":
                 if not (isinstance(res, np.ndarray) and res.shape == (len(ps), outlen)):
@@ -491,7 +620,7 @@ def run_history(ctx, drv, case):
                     if not same:
                         corr("batch-values", rows, mo)
                     want_vec = 1 if ps else 0        # an accepted empty batch returns before anything is evaluated
-                    if cnt.n_vec - v0 != want_vec or (cnt.n_eval - e0) != (len(ps) if generic else 0):
+                    if not debug_on and (cnt.n_vec - v0 != want_vec or (cnt.n_eval - e0) != (len(ps) if generic else 0)):
                         corr("batch-eval-calls", "eval %d vec %d" % (cnt.n_eval - e0, cnt.n_vec - v0),
                              "eval %d vec %d" % (len(ps) if generic else 0, want_vec))
                 if ps and declared_ok:
@@ -529,6 +658,28 @@ def run_history(ctx, drv, case):
             mo = drv.ask("size")
             if mo != str(n):
                 corr("size", n, mo)
+        elif kind == "debug":
+            f.debug = True
+            debug_on = True
+        elif kind == "values" and declared_ok:
+            # the other public routes to the dictionary: values in key order, and the counter at its use site
+            try:
+                ks, vals = f.get_f_dict_points(), f.get_f_dict_values()
+                if len(ks) != len(vals) or any(
+                        not all(near(x, y) for x, y in zip(np.ravel(np.asarray(v, dtype=float)), pure([float(t) for t in k])))
+                        or len(np.ravel(np.asarray(v, dtype=float))) != outlen for k, v in zip(ks, vals)):
+                    viol("dict-values", {}, {"keys": str(ks)[:200], "values": str(vals)[:200]})
+                if integ[0] is None:
+                    from sparseSpACE.GridOperation import Integration
+                    integ[0] = Integration(f, None, dim)
+                n_use = integ[0].get_distinct_points(None)
+                if n_use != len(evaluated) and not counter_reported:
+                    counter_reported = True
+                    viol("counter", {"cache_on": cache_on, "single_while_off_since_reset": single_off_since_reset,
+                                     "route": "Integration.get_distinct_points"},
+                         {"get_distinct_points": n_use, "distinct_points_evaluated_since_reset": len(evaluated)})
+            except Exception as e:
+                viol("raises", {"op": "values", "error": type(e).__name__}, {"error": str(e)[:200]})
         # after EVERY operation: dictionary of the implementation vs the model, and the counter clause
         ik = sorted(tuple(Fraction(float(x)) for x in k) for k in f.get_f_dict_points())
         mk = sorted(tuple(q) for q in parse_vecs(drv.ask("keys")))
@@ -570,6 +721,21 @@ def report(ctx, probe, tags, case, detail):
     if unlisted:
         caps[key] = caps.get(key, 0) + 1
     return unlisted
+
+
+def crashed(ctx, case):
+    """an exception escaped while a case ran: if it was raised INSIDE the implementation (a sparseSpACE frame is the
+    innermost library frame) it is a violation with the concrete case, otherwise a harness error"""
+    import traceback
+    import sys as _sys
+    et, ev, tb = _sys.exc_info()
+    frames = traceback.extract_tb(tb)
+    inside = bool(frames) and ("sparseSpACE" in frames[-1].filename or any("sparseSpACE" in fr.filename for fr in frames[-3:]))
+    text = traceback.format_exc()[-1500:]
+    if inside:
+        report(ctx, "raises", {"cls": case.get("cls", "?"), "op": case.get("kind"), "error": et.__name__}, case, {"traceback": text})
+    else:
+        ctx.corr_break("C12/harness-exception", case, text)
 
 
 def ctx_continue(ctx):
@@ -619,11 +785,23 @@ INTEGRAL_CLASSES = ["ConstantValue", "FunctionLinear", "FunctionPolynomial", "Fu
                     "FunctionCompose", "GenzDiscontinious2", "BaseClassQuadrature"]
 
 
-def gen_integral(r, name, thorough):
+# largest power of two by which a box (and the kink / border / midpoint of the integrand) may be moved away from the origin
+FAR_INT = {"ConstantValue": 9, "FunctionLinear": 9, "FunctionPolynomial": 9, "FunctionMultilinear": 9, "Polynomial1d": 9,
+           "GenzProductPeak": 9, "GenzC0": 9, "GenzGaussian": 9, "GenzDiscontinious": 5, "GenzDiscontinious2": 5,
+           "FunctionExpVar": 9, "GenzCornerPeak": 3}
+HIGH_DIM = ("ConstantValue", "FunctionLinear", "FunctionPolynomial", "FunctionMultilinear", "GenzProductPeak", "GenzC0",
+            "GenzDiscontinious", "FunctionExpVar", "GenzOszillatory", "GenzCornerPeak")
+
+
+def gen_integral(r, name, thorough, plain=False):
     cname = "CustomFunction" if name == "BaseClassQuadrature" else name
     spec = CLASSES[cname]
+    high = False
     if name == "BaseClassQuadrature":
-        dim = 2
+        dim = r.choice([2, 2, 2, 3])          # dblquad and the tplquad fallback
+    elif name in HIGH_DIM and not plain and r.random() < 0.12:
+        dim = r.choice([4, 4, 5])             # compared with the proved closed form only (nquad is too slow there)
+        high = True
     elif name in ("FunctionG", "FunctionDiagonalDiscont"):
         dim = r.choice([1, 2])
     else:
@@ -632,6 +810,8 @@ def gen_integral(r, name, thorough):
     params = gen_params(cname, r, dim)
     if name == "BaseClassQuadrature":
         params["k"] = 1
+    if name in ("GenzDiscontinious", "GenzDiscontinious2"):
+        params["c"] = [min(max(c, -2.0), 2.0) for c in params["c"]]
     if name == "GenzOszillatory" and r.random() < 0.15:
         params["c"] = [0.0] * dim
     lo, hi = spec["dom"]
@@ -663,7 +843,31 @@ def gen_integral(r, name, thorough):
         if name == "FunctionShift":
             hi_s = hi - 1          # the shifted box must stay in the domain of the inner function (it does: shift >= 0)
             b = [min(b[d], hi_s + 1) for d in range(dim)]
-    return {"kind": "integral", "cls": name, "dim": dim, "params": params, "a": a, "b": b}
+    case = {"kind": "integral", "cls": name, "dim": dim, "params": params, "a": a, "b": b}
+    if plain:
+        return case
+    # scale extremes (catalogue e): the box AND the special point of the integrand moved far from the origin and shrunk
+    if name in FAR_INT and r.random() < (0.4 if ("m" in params or "b" in params) else 0.2):
+        k = min(r.choice([3, 5, 7, 9]), FAR_INT[name])
+        off = float(2 ** k) * (1.0 if lo >= 0 else r.choice([-1.0, 1.0]))
+        shrink = 1.0 if name == "GenzCornerPeak" else 2.0 ** -r.choice([0, 3, 10, 13])   # (corner sums cancel: no tiny boxes)
+        tr = lambda v: [off + shrink * x for x in v]   # noqa: E731
+        case["a"], case["b"] = tr(a), tr(b)
+        for key in ("m", "b"):
+            if key in params and name not in ("ConstantValue",):
+                params[key] = tr(params[key])
+        case["cond"] = (abs(off) + 2.0) / (shrink * min(y - x for x, y in zip(a, b)))
+    if high:
+        case["tie_only"] = True
+    # catalogue a / c: the same object answers another box first; the bounds come as list / tuple / ndarray
+    case["argtype"] = r.choice(["list", "list", "tuple", "array"])
+    if name not in ("FunctionG", "FunctionDiagonalDiscont") and "cond" not in case and r.random() < 0.4:
+        pre = gen_integral(r, name, thorough, plain=True)
+        if pre["dim"] == dim or name == "BaseClassQuadrature":
+            # same parameters, another box of the same dimension
+            if pre["dim"] == dim:
+                case["pre"] = [pre["a"], pre["b"]]
+    return case
 
 
 def breakpoints(name, p, d):
@@ -678,13 +882,13 @@ def breakpoints(name, p, d):
     return None
 
 
-def numeric_integral(f, name, p, a, b, comp=0):
+def numeric_integral(f, name, p, a, b, comp=0, unit=1.0):
     from scipy import integrate
     dim = len(a)
     fun = lambda *x: float(np.ravel(f.eval(list(x)))[comp])   # noqa: E731
     opts = []
     for d in range(dim):
-        o = {"epsabs": 1e-11, "epsrel": 1e-11, "limit": 100}
+        o = {"epsabs": 1e-11 * min(1.0, unit), "epsrel": 1e-11, "limit": 100}
         bp = breakpoints(name, p, d)
         if bp:
             bp = [x for x in bp if a[d] < x < b[d]]
@@ -697,6 +901,30 @@ def numeric_integral(f, name, p, a, b, comp=0):
         opts.append(o)
     val, err = integrate.nquad(fun, [[a[d], b[d]] for d in range(dim)], opts=opts)
     return val, err
+
+
+PRODUCT_FORM = ("GenzProductPeak", "GenzC0", "GenzDiscontinious", "FunctionExpVar")
+
+
+def product_integral(f, name, p, a, b):
+    """numeric integral of an integrand of product form f(x) = K * prod_d g_d(x_d), from point evaluations only:
+    f(x0) * prod_d ( int f(x0 with x_d = t) dt / f(x0) ); None if f vanishes at the reference point"""
+    from scipy import integrate
+    x0 = [x + (y - x) / 64 for x, y in zip(a, b)]
+    f0 = float(np.ravel(f.eval(list(x0)))[0])
+    if f0 == 0.0 or not math.isfinite(f0):
+        return None, 0.0
+    tot, err = f0, 0.0
+    for d in range(len(a)):
+        def line(t, d=d):
+            x = list(x0); x[d] = t
+            return float(np.ravel(f.eval(x))[0])
+        bp = breakpoints(name, p, d)
+        bp = [x for x in (bp or []) if a[d] < x < b[d]]
+        v, e = integrate.quad(line, a[d], b[d], epsabs=0.0, epsrel=1e-12, limit=200, points=bp or None)
+        tot *= v / f0
+        err += abs(e / v) if v != 0 else 0.0
+    return tot, abs(tot) * err
 
 
 def gauss_integral(f, a, b, n=8):
@@ -754,12 +982,27 @@ def run_integral(ctx, drv, case):
     tags = {"cls": name, "dim": len(a), "unit_sides": unit_sides}
     if name == "GenzOszillatory":
         tags["all_coefficients_zero"] = all(c == 0 for c in params["c"])
+    mk = {"list": list, "tuple": tuple, "array": lambda v: np.array(v, dtype=float)}[case.get("argtype", "list")]
+    if "cond" in case:
+        tags["far"] = True
     try:
         with contextlib.redirect_stdout(io.StringIO()):
-            ana = f.getAnalyticSolutionIntegral(list(a), list(b))
+            if case.get("pre"):
+                f.getAnalyticSolutionIntegral(mk(case["pre"][0]), mk(case["pre"][1]))   # the object has a history
+            A, B = mk(a), mk(b)
+            ana = f.getAnalyticSolutionIntegral(A, B)
+            unchanged = list(map(float, A)) == list(map(float, a)) and list(map(float, B)) == list(map(float, b))
+            ana_again = f.getAnalyticSolutionIntegral(A, B)
     except Exception as e:
         report(ctx, "integral-raises", dict(tags, error=type(e).__name__), case, {"error": str(e)[:200]})
         return False
+    if not unchanged:
+        if report(ctx, "argument-modified", dict(tags, op="getAnalyticSolutionIntegral"), case,
+                  {"start_after": str(A)[:100], "end_after": str(B)[:100]}):
+            ok = False
+    if not np.array_equal(np.ravel(np.asarray(ana, dtype=float)), np.ravel(np.asarray(ana_again, dtype=float))):
+        if report(ctx, "integral-not-repeatable", tags, case, {"first": repr(ana)[:80], "second": repr(ana_again)[:80]}):
+            ok = False
     n_comp = len(np.ravel(f.eval(list(a))))
     if ana is not None and np.size(ana) == 1 and n_comp > 1:
         # e.g. GenzDiscontinious2 returns the scalar 0.0 for a box beyond the border: numerically the same vector
@@ -785,19 +1028,20 @@ def run_integral(ctx, drv, case):
     elif m == "poly1d":
         line = "ana poly1d %s %s %s" % (vs(params["cs"]), frac_str(a[0]), frac_str(b[0]))
     exact = None
+    tie_tol = max(1e-12, 4e-16 * case.get("cond", 1.0))   # the closed forms subtract nearly equal numbers on far boxes
     if line is not None:
         mv = Fraction(drv.ask(line))
         if m == "multilin":
             # `ana multilin` is the formula of the code under test (Lean: anaMultilinearCurrent); the repaired formula
             # (proved to be the integral: C12.multilinear_fixed_integral) is the exact reference
             exact = Fraction(drv.ask(line.replace("ana multilin ", "ana multilinfixed ")))
-            if not rel_close(ana, mv, 1e-12, 1e-9):
+            if not rel_close(ana, mv, tie_tol, 0.0 if "cond" in case else 1e-9):
                 ok = False
                 ctx.corr_break("C12/ana-multilin", case, {"impl": ana, "model": str(mv), "model_repaired_formula": str(exact),
                                                           "hint": "if handoff/C12-fix-2.diff was applied set multilinearRepaired := true in Model/AnalyticInt.lean"})
         else:
             exact = mv
-            if not rel_close(ana, mv, 1e-12, 1e-9):
+            if not rel_close(ana, mv, tie_tol, 0.0 if "cond" in case else 1e-9):
                 ok = False
                 ctx.corr_break("C12/ana-" + m, case, {"impl": ana, "model": str(mv)})
         # eval mirror on the box corners / midpoint
@@ -829,8 +1073,16 @@ def run_integral(ctx, drv, case):
             # comparison unit must be the size of the summands, not the (tiny) values of f at two corners
             nz = [abs(float(c)) for c in params["c"] if float(c) != 0.0]
             vol = float(np.prod([abs(y - x) for x, y in zip(a, b)]))
-            scale = max(scale, 1e-3 * max(vol, 1.0 / float(np.prod(nz)) if nz else vol))
-        if mv is None or not rel_close(ana, mv, 1e-12, scale):
+            scale = max(scale, 1e-3 * 2 ** len(a) * max(vol, 1.0 / float(np.prod(nz)) if nz else vol))
+        tt = tie_tol
+        if name == "GenzCornerPeak":
+            # signed sum of 2^n terms 1/u that cancels to order prod_d (c_d w_d / u): the rounding error of EITHER evaluation
+            # order is eps * prod_d (u / (c_d w_d)) relative to the result
+            u = 1.0 + sum(c * max(abs(x), abs(y)) for c, x, y in zip(params["c"], a, b))
+            tt = max(1e-12, 4e-16 * float(np.prod([u / (c * abs(y - x)) for c, x, y in zip(params["c"], a, b)])))
+        if tt > 1e-9:
+            ctx.count("anaT_tie_skipped_ill_conditioned")
+        elif mv is None or not rel_close(ana, mv, tt, scale):
             ok = False
             ctx.corr_break("C12/anaT-" + name, case, {"impl": ana, "model_float": mv, "line": ana_line})
         mid = [(x + y) / 2 for x, y in zip(a, b)]
@@ -842,21 +1094,139 @@ def run_integral(ctx, drv, case):
                 ctx.corr_break("C12/evlT-" + name, case, {"impl": iv, "model_float": ev, "point": pt})
         ctx.count("anaT_" + name)
     # (2) oracle: the property itself -- analytic == numerically computed integral of the point evaluation
+    # comparison unit: volume * size of the integrand on the box (an absolute floor of 1 would blind the oracle on small boxes)
+    import itertools
+    vol = float(np.prod([abs(y - x) for x, y in zip(a, b)]))
+    probe_pts = [list(c) for c in itertools.product(*zip(a, b))][:32] + [[(x + y) / 2 for x, y in zip(a, b)]]
     for comp in range(n_comp):
+        fmax = max(abs(float(np.ravel(f.eval(pt))[comp])) for pt in probe_pts)
+        unit = vol * fmax
+        if name == "GenzOszillatory":
+            unit = max(unit, vol)            # |cos| <= 1: an integral that cancels is compared with the volume
         if m in ("const", "linear", "poly", "multilin", "poly1d"):
-            num, err = gauss_integral(f, a, b, 8), 0.0
-            how = "gauss-legendre-8"
+            num, err = gauss_integral(f, a, b, 8 if len(a) <= 3 else 5), 0.0
+            how = "gauss-legendre"
+        elif case.get("tie_only") and name in PRODUCT_FORM:
+            num, err = product_integral(f, name, params, a, b)
+            how = "product of 1-D quadratures"
+            if num is None:
+                ctx.count("integral_high_dim_tie_only")
+                continue
+        elif case.get("tie_only"):
+            ctx.count("integral_high_dim_tie_only")
+            continue
         else:
-            num, err = numeric_integral(f, name, params, a, b, comp)
+            num, err = numeric_integral(f, name, params, a, b, comp, unit)
             how = "nquad"
-        if err > 1e-8 * max(1.0, abs(num)):
+        if err > 1e-9 * max(unit, abs(num)):
             ctx.count("nquad_inaccurate_skipped")
             continue
-        if not abs(ana_vec[comp] - num) <= 1e-7 * max(1.0, abs(num)):
+        if not abs(ana_vec[comp] - num) <= 1e-7 * max(unit, abs(num)):
             if report(ctx, "analytic-vs-numeric", tags, case,
                       {"analytic": ana_vec[comp], "numeric": num, "numeric_error_estimate": err, "method": how,
                        "component": comp, "exact_model": str(exact) if exact is not None else None}):
                 ok = False
+    return ok
+
+
+# --------------------------------------------------------------------------------------------- sibling objects
+# catalogue b: two or three Function objects alive at once (same class with other parameters, or sibling subclasses of
+# Function) work on the SAME points in an interleaved order; each must behave as if it were alone (no class-level dict, no
+# mutable default, no module-level cache).  Oracle only; the whole process history is the case.
+SIB_ANY = ["ConstantValue", "FunctionLinear", "FunctionPolynomial", "FunctionMultilinear", "GenzProductPeak", "GenzOszillatory",
+           "GenzC0", "GenzGaussian", "FunctionCompose", "CustomFunction", "FunctionCustom", "LambdaFunction", "FunctionUQWeighted",
+           "GenzDiscontinious", "FunctionGeneralizedNormal", "FunctionPower", "FunctionConcatenate"]
+
+
+def gen_siblings(r):
+    dim = r.choice([1, 2, 2, 3])
+    nobj = r.choice([2, 2, 3])
+    first = r.choice(SIB_ANY)
+    objs = []
+    for i in range(nobj):
+        name = first if (i > 0 and r.random() < 0.5) else r.choice(SIB_ANY)
+        if dim not in CLASSES[name]["dims"]:
+            name = "FunctionLinear"
+        objs.append({"cls": name, "params": gen_params(name, r, dim)})
+    pool = [[dy(r, -1, 2, r.choice([2, 4, 8])) for _ in range(dim)] for _ in range(r.randint(2, 5))]
+    ops = []
+    for _ in range(r.randint(4, 40)):
+        i = r.randrange(nobj)
+        x = r.random()
+        if x < 0.45:
+            ops.append([i, "single", r.choice(pool)])
+        elif x < 0.8:
+            ops.append([i, "batch", [r.choice(pool) for _ in range(r.choice([1, 2, 3]))]])
+        elif x < 0.9:
+            ops.append([i, "reset"])
+        elif x < 0.95:
+            ops.append([i, "deact"])
+        else:
+            ops.append([i, "new"])          # the object is replaced by a fresh instance of the same class and parameters
+    return {"kind": "siblings", "dim": dim, "objs": objs, "ops": ops}
+
+
+def run_siblings(ctx, case):
+    objs = case["objs"]
+    fs = [build(o["cls"], o["params"]) for o in objs]
+    gs = [build(o["cls"], o["params"]) for o in objs]
+    ev = [set() for _ in objs]
+    cache_on = [True for _ in objs]
+    ok = True
+    done = []
+
+    def viol(probe, tags, detail):
+        nonlocal ok
+        if report(ctx, probe, tags, dict(case, ops=list(done)), detail):
+            ok = False
+
+    def check_all(after):
+        for j, f in enumerate(fs):
+            n = f.get_f_dict_size()
+            keys = set(tuple(float(x) for x in k) for k in f.get_f_dict_points())
+            if n != len(ev[j]) or keys != ev[j]:
+                viol("sibling-counter", {"cls": objs[j]["cls"], "object": j, "after_op_on": after},
+                     {"size": n, "expected": len(ev[j]), "keys": sorted(keys)[:5], "expected_keys": sorted(ev[j])[:5]})
+                return False
+        return True
+
+    for op in case["ops"]:
+        done.append(op)
+        i, kind = op[0], op[1]
+        f, g, name = fs[i], gs[i], objs[i]["cls"]
+        tags = {"cls": name, "object": i, "n_objects": len(objs), "cache_on": cache_on[i]}
+        if kind == "single":
+            p = tuple(float(x) for x in op[2])
+            res = call_quiet(f, p)
+            pv = pure_value(g, p)
+            sc = 1e-2 * max([abs(x) for x in pv] + [0.0])
+            if len(np.ravel(res)) != len(pv) or not all(rel_close(x, y, 1e-12, sc) for x, y in zip(np.ravel(res), pv)):
+                viol("sibling-value", dict(tags, op="single"), {"point": list(p), "returned": [float(x) for x in np.ravel(res)], "pure": pv})
+            ev[i].add(p)
+        elif kind == "batch":
+            ps = [tuple(float(x) for x in q) for q in op[2]]
+            res = call_quiet(f, ps)
+            for row, q in zip(res, ps):
+                pv = pure_value(g, q)
+                sc = 1e-2 * max([abs(x) for x in pv] + [0.0])
+                if len(np.ravel(row)) != len(pv) or not all(rel_close(x, y, 1e-12, sc) for x, y in zip(np.ravel(row), pv)):
+                    viol("sibling-value", dict(tags, op="batch"), {"point": list(q), "returned": [float(x) for x in np.ravel(row)], "pure": pv})
+                ev[i].add(q)
+        elif kind == "reset":
+            f.reset_dictionary()
+            ev[i] = set()
+        elif kind == "deact":
+            f.deactivate_caching()
+            cache_on[i] = False
+        elif kind == "new":
+            fs[i] = build(name, objs[i]["params"])
+            ev[i] = set()
+            cache_on[i] = True
+            if fs[i].get_f_dict_size() != 0 or not fs[i].do_cache:
+                viol("sibling-fresh-object", tags, {"size_of_new_object": fs[i].get_f_dict_size(), "do_cache": fs[i].do_cache})
+        # EVERY object is re-observed after another one worked
+        if not check_all(i) or not ok:
+            break
     return ok
 
 
@@ -1012,6 +1382,8 @@ def run(ctx):
     ctx.assumptions.append("remaining analytic integrals (GenzGaussian [erf], FunctionG, FunctionDiagonalDiscont, wrappers) and the "
                            "agreement of their vectorised overrides with eval are validated by the oracle only, not proved")
     drv = ctx.driver("drv_c12")
+    import funccache_gen, sys
+    funccache_gen.run(ctx, drv, sys.modules[__name__])      # translator tie of the Function cache (see funccache_gen.py)
     run_malformed(ctx, drv)
     names = list(CLASSES)
     n_hist = 40 if not thorough else 400          # per class
@@ -1024,10 +1396,9 @@ def run(ctx):
             case = gen_history(r, name, thorough)
             try:
                 ok = run_history(ctx, drv, case)
-            except Exception as e:
-                import traceback
+            except Exception:
                 ok = False
-                ctx.corr_break("C12/harness-exception", case, traceback.format_exc()[-1500:])
+                crashed(ctx, case)
             nontriv = any(o[0] in ("single", "batch") and len(o[1]) > 0 for o in case["ops"])
             ctx.case(case, nontrivial=nontriv, sample=case if k < 2 else None)
             ctx.count("hist_" + name)
@@ -1042,6 +1413,15 @@ def run(ctx):
             run_vec(ctx, case)
             ctx.case(case, nontrivial=True)
             ctx.count("vec_" + name)
+    # (e) sibling objects
+    for rnd in range(150 if not thorough else 2500):
+        case = gen_siblings(r)
+        try:
+            run_siblings(ctx, case)
+        except Exception:
+            crashed(ctx, case)
+        ctx.case(case, nontrivial=True, sample=case if rnd == 0 else None)
+        ctx.count("siblings_%d" % len(case["objs"]))
     # (d) aliasing: results must not share memory with the cache or with each other
     alias_names = [n for n in names if n != "CustomFunctionWrongLength"] + RET_WRAPPERS
     alias_names = [n for n in alias_names if n in RET_WRAPPERS or n in CLASSES]
@@ -1051,8 +1431,7 @@ def run(ctx):
             try:
                 run_alias(ctx, case)
             except Exception:
-                import traceback
-                ctx.corr_break("C12/harness-exception", case, traceback.format_exc()[-1500:])
+                crashed(ctx, case)
             ctx.case(case, nontrivial=True)
             ctx.count("alias_" + ("on" if case["cache_on"] else "off"))
     # (c) analytic integrals
@@ -1067,8 +1446,7 @@ def run(ctx):
             try:
                 run_integral(ctx, drv, case)
             except Exception:
-                import traceback
-                ctx.corr_break("C12/harness-exception", case, traceback.format_exc()[-1500:])
+                crashed(ctx, case)
             ctx.case(case, nontrivial=True, sample=case if rnd == 0 and name == "GenzCornerPeak" else None)
             ctx.count("int_" + name)
             ctx.count("int_dim_%d" % case["dim"])
@@ -1086,6 +1464,8 @@ def replay(ctx, rp):
         ok = run_integral(ctx, drv, case)
     elif kind == "alias":
         ok = run_alias(ctx, case)
+    elif kind == "siblings":
+        ok = run_siblings(ctx, case)
     else:
         print("replay: unknown case kind", kind)
         return 1
